@@ -25,3 +25,12 @@ def host_stream_packets(sim, stream):
         if p.arg0 == stream.lid and t >= stream.t_open:
             out.append(p)
     return out
+
+
+def typed(x):
+    """Type-strict view of a result: bytes and bytearray (or str and bytes, list and tuple) compare unequal."""
+    if isinstance(x, dict):
+        return {k: typed(v) for k, v in x.items()}
+    if isinstance(x, (list, tuple)):
+        return (type(x).__name__, [typed(v) for v in x])
+    return (type(x).__name__, x)
